@@ -24,6 +24,7 @@ import QV.Model.Cplx
 import QV.Lemmas.CplxTensor
 import QV.Lemmas.CplxStorage
 import QV.Lemmas.CplxEinsumEq
+import QV.Lemmas.PyFlag
 
 namespace QV.Props
 namespace C15
@@ -109,6 +110,22 @@ theorem C15_rejects_real_imag (x : Tensor α) :
   constructor
   · split <;> simp_all
   · split <;> simp_all
+
+/-- a tensor that is NOT a complex tensor (0-d, or leading axis of length 0 or 1) either has no real plane or no imaginary plane;
+the model's only error there is `IndexError` (final pass, audit item C15-5) -/
+theorem C15_rejects_not_complex_planes (x : Tensor α) (h : x.shape = [] ∨ x.shape.head? = some 0 ∨ x.shape.head? = some 1) :
+    imag x = .error .IndexError ∧ (real x = .error .IndexError ∨ ∃ r, real x = .ok r) := by
+  refine ⟨(C15_rejects_real_imag x).2.mpr h, ?_⟩
+  unfold real
+  split <;> simp
+
+/-- **conj rejects** (`IndexError`) every tensor that is not a complex tensor: 0-d, leading axis of length 0 or 1
+(final pass, audit item C15-5; a leading axis ≥ 3 is accepted, planes 0 and 1 are used: scope note in claims.d/C15.json). -/
+theorem C15_rejects_conj (x : Tensor α) (h : x.shape = [] ∨ x.shape.head? = some 0 ∨ x.shape.head? = some 1) :
+    conj x = .error .IndexError := by
+  obtain ⟨hi, hr | ⟨r, hr⟩⟩ := C15_rejects_not_complex_planes x h
+  · unfold conj; rw [hr]; rfl
+  · unfold conj; rw [hr, hi]; rfl
 
 /-- **conj**: entrywise complex conjugate, same shape, every rank. -/
 theorem C15_conj {x : Tensor α} {s : List Nat} (hx : IsCplx x s) :
@@ -734,6 +751,17 @@ theorem C15_einsum_flags {a b : Tensor R} {sa sb : List Nat} (eq : EinEq) (ha : 
   · simp only [einsum, hr, ok_bind, pure_eq_ok]
   · simp only [einsum, hi, ok_bind, pure_eq_ok]
 
+/-- **einsum, the OBJECTS passed as `real_part` / `imag_part`** (documented as `bool`; callers also pass `1` / `0`, `numpy.bool_`
+values, 0-dim bool arrays / tensors): whatever object of whatever kind says `p` resp. `q`, the call is the call with the singletons
+`p`, `q` — so every theorem about `einsumS` / `einsum` (`C15_einsum_string`, `C15_einsum`, `C15_einsum_flags`, …) applies to it.
+(A slip `if real_part is True` would be `isTrueSingleton` in the model: `numpy.True_`, `1` would select nothing.) -/
+theorem C15_einsum_flag (raw : RawEq) (a b : Tensor R) (rp ip : PyFlag) :
+    einsumF raw a b rp ip = einsumS raw a b rp.truthy ip.truthy ∧
+    ∀ (f g : Nat) (p q : Bool), einsumF raw a b (PyFlag.ofBool f p) (PyFlag.ofBool g q) = einsumS raw a b p q := by
+  refine ⟨rfl, fun f g p q => ?_⟩
+  unfold einsumF
+  rw [PyFlag.truthy_ofBool, PyFlag.truthy_ofBool]
+
 /-- **einsum rejects** (torch `RuntimeError`) exactly the equations / shapes that fail `einOk`: wrong number of
 subscripts, a label repeated inside an operand with different lengths, lengths that do not broadcast between the
 operands, a repeated or unknown output label — whenever a part is requested. -/
@@ -967,6 +995,25 @@ broadcastable shapes are NOT enough). -/
 theorem C15_rejects_elementwise_division (x y : Tensor ℝ) (h : x.shape ≠ y.shape) :
     elementwiseDivision x y = .error .ValueError := by
   unfold elementwiseDivision; rw [if_pos h]
+
+/-- **absolute_value / inverse / elementwise_division reject** (`IndexError`) operands that are not complex tensors (0-d, leading
+axis of length 0 or 1), for `elementwise_division` a divisor of the dividend's shape (final pass, audit item C15-5). -/
+theorem C15_rejects_field_not_complex (x : Tensor ℝ) (h : x.shape = [] ∨ x.shape.head? = some 0 ∨ x.shape.head? = some 1) :
+    absoluteValue x = .error .IndexError ∧ inverse x = .error .IndexError ∧
+    ∀ w : Tensor ℝ, w.shape = x.shape → elementwiseDivision w x = .error .IndexError := by
+  obtain ⟨hi, hr⟩ := C15_rejects_not_complex_planes x h
+  have hsc : cscale x = .error .IndexError := by
+    unfold cscale
+    rcases hr with hr | ⟨r, hr⟩
+    · rw [hr]; rfl
+    · rw [hr, hi]; rfl
+  refine ⟨?_, ?_, fun w hw => ?_⟩
+  · unfold absoluteValue
+    rcases hr with hr | ⟨r, hr⟩
+    · rw [hr]; rfl
+    · rw [hr, hi]; rfl
+  · unfold inverse; rw [hsc]; rfl
+  · unfold elementwiseDivision; rw [if_neg (by simpa using hw), hsc]; rfl
 
 /-- **inverse**: `z⁻¹` entrywise wherever `z ≠ 0` (at `0`: `nan`, recorded in notes/C15.md). -/
 theorem C15_inverse {z : Tensor ℝ} {s : List Nat} (hz : IsCplx z s) :
